@@ -79,6 +79,18 @@ func (l *Lexer) NextToken() (lexer.Token, error) {
 		// Read the next character from the input stream.
 		r, err := l.in.Next()
 		if err != nil {
+			// The input can end in the middle of a lexeme; the pending state still has to be evaluated.
+			if curr != 0 && errors.Is(err, io.EOF) {
+				switch token := l.evalDFA(curr); token.Terminal {
+				case ERR:
+					return lexer.Token{}, errors.New(token.Lexeme)
+				case WS, EOL, COMMENT:
+					return lexer.Token{}, err
+				default:
+					return token, nil
+				}
+			}
+
 			return lexer.Token{}, err
 		}
 
